@@ -227,10 +227,10 @@ theorem checkoutFile_fresh {ctx : Ctx κ} (g : Good ctx) {s : Store κ} {x : κ}
   have hhas := Store.has_of_get h
   cases strat with
   | link =>
-    exact ⟨.link (.obj (ctx.H x)), by simp [checkoutFile, quick, hh, hhas, h],
+    exact ⟨.link (.obj (ctx.H x)), by simp [checkoutFile, upToDateCopy, quick, hh, hhas, h],
       by simp [deref, h, hb]⟩
   | copy =>
-    exact ⟨.file x, by simp [checkoutFile, quick, hh, hhas, h, hb], by simp [deref]⟩
+    exact ⟨.file x, by simp [checkoutFile, upToDateCopy, quick, hh, hhas, h, hb], by simp [deref]⟩
 
 /-! ## plain trees are their own logical content -/
 
